@@ -824,6 +824,10 @@ public:
 	{
 		if (FindValueByKey(key))
 		{
+			// Leave the value untouched when it is not a binary array (it will be loaded as a generic array)
+			if (mMsgPackReader->ReadValueType() != ValueType::BinaryArray) {
+				return std::nullopt;
+			}
 			if (size_t sz = 0; mMsgPackReader->ReadBinarySize(sz)) {
 				return std::make_optional<CMsgPackReadBinaryScope<TReader>>(sz, mMsgPackReader, GetContext(), this);
 			}
@@ -973,6 +977,10 @@ public:
 
 	[[nodiscard]] std::optional<CMsgPackReadBinaryScope<IMsgPackReader>> OpenBinaryScope(size_t) const
 	{
+		// Leave the value untouched when it is not a binary array (it will be loaded as a generic array)
+		if (mMsgPackReader->ReadValueType() != ValueType::BinaryArray) {
+			return std::nullopt;
+		}
 		if (size_t sz = 0; mMsgPackReader->ReadBinarySize(sz)) {
 			return std::make_optional<CMsgPackReadBinaryScope<IMsgPackReader>>(sz, mMsgPackReader, GetContext());
 		}
